@@ -161,7 +161,9 @@ class DebPart(object):
         if fobj is None:
             raise DebError("File not found inside package")
         if encoding is not None:
-            return io.TextIOWrapper(fobj, encoding=encoding, errors=errors)
+            # newline='\n': decode only, do not turn CR LF or CR into LF
+            return io.TextIOWrapper(fobj, encoding=encoding, errors=errors,
+                                    newline='\n')
 
         return fobj
 
